@@ -117,6 +117,28 @@ var c10Queries2 = []string{
 	"SELECT a FROM t WHERE NOT s",
 	"SELECT a FROM t WHERE s IS TRUE",
 	"SELECT a FROM t WHERE o IS NOT FALSE",
+	// operators the evaluator does not implement, odd IN right-hand sides
+	"SELECT a FROM t WHERE a <=> 1",
+	"SELECT a FROM t WHERE s REGEXP 'x'",
+	"SELECT a FROM t WHERE s NOT REGEXP 'x'",
+	"SELECT a FROM t WHERE a IN (zz)",
+	"SELECT a FROM t WHERE a IN (SELECT zz FROM u)",
+	"SELECT a FROM t WHERE s NOT LIKE '('",
+	"SELECT a FROM t WHERE a IN (a + 1, a * 2, -a)",
+	// literal kinds and unary operators outside the implemented set
+	"SELECT 0x1F AS v FROM t",
+	"SELECT x'4D' AS v FROM t",
+	"SELECT b'01' AS v FROM t",
+	"SELECT 1e999 AS v FROM t",
+	"SELECT +a AS v FROM t",
+	"SELECT BINARY s AS v FROM t",
+	"SELECT -zz AS v, ~zz AS w FROM t",
+	"SELECT a FROM t WHERE a = TRUE OR s = NULL",
+	"SELECT a, @x AS v FROM t",
+	"SELECT a COLLATE utf8_bin AS v FROM t",
+	"SELECT CAST(a AS CHAR) AS v, CONVERT(s, SIGNED) AS w FROM t",
+	"SELECT a FROM t WHERE a = ANY (SELECT a FROM u)",
+	"SELECT INTERVAL 1 DAY + a AS v FROM t",
 	// sources that are not arrays of objects
 	"SELECT * FROM a",
 	"SELECT * FROM `a.b`",
